@@ -141,6 +141,40 @@ def count_obligations(files):
     return n, names
 
 
+def coqchk_all():
+    """independent re-check (coqchk -o) of the WHOLE development and everything it depends on; one run (about 17 min)
+    serves every property: the result is cached against the compiled files' signature"""
+    mods, sig = [], []
+    with open(os.path.join(COQ, "_CoqProject")) as f:
+        for l in f:
+            l = l.strip()
+            if l.endswith(".v"):
+                mods.append("LNN." + l[:-2].replace("/", "."))
+                vo = os.path.join(COQ, l[:-2] + ".vo")
+                sig.append((l, os.path.getmtime(vo) if os.path.exists(vo) else 0))
+    import hashlib
+    key = hashlib.sha256(json.dumps(sig).encode()).hexdigest()
+    cache = os.path.join(COQ, ".coqchk_cache.json")
+    with Lock():
+        if os.path.exists(cache):
+            try:
+                with open(cache) as f:
+                    c = json.load(f)
+                if c.get("key") == key:
+                    c["cached"] = True
+                    return c
+            except Exception:
+                pass
+        t = time.time()
+        rc, out = sh("timeout 5400 coqchk -silent -o -Q . LNN " + " ".join(mods) + " 2>&1", cwd=COQ, timeout=5500)
+        m = re.search(r"\* Axioms:\s*(.*?)\n\s*\*", out + "\n *", flags=re.S)
+        c = {"key": key, "rc": rc, "tail": out[-1500:], "seconds": round(time.time() - t, 1), "axioms": (m.group(1).strip() if m else ""),
+             "cmd": "coqchk -silent -o -Q . LNN <all modules of _CoqProject>"}
+        with open(cache, "w") as f:
+            json.dump(c, f)
+        return c
+
+
 def check_property_file(pid, thorough=False):
     """Compile Properties/<pid>.v, parse Print Assumptions.  Returns dict."""
     rel = f"Properties/{pid}.v"
@@ -177,19 +211,16 @@ def check_property_file(pid, thorough=False):
     if res["ok"]:
         res["discharged"] += count_obligations([rel])[0]
     if thorough and res["ok"]:
-        t = time.time()
-        with Lock():
-            rc, out = sh(f"timeout 1700 coqchk -silent -o -Q . LNN LNN.Properties.{pid} 2>&1", cwd=COQ, timeout=1800)
-        res["coqchk_rc"] = rc
-        res["coqchk_tail"] = out[-1500:]
-        res["coqchk_s"] = round(time.time() - t, 1)
-        if rc != 0:
+        ck = coqchk_all()
+        res["coqchk_rc"] = ck["rc"]
+        res["coqchk_tail"] = ck["tail"]
+        res["coqchk_s"] = ck["seconds"]
+        res["coqchk_cached"] = ck.get("cached", False)
+        if ck["rc"] != 0:
             res["ok"] = False
         else:
-            m = re.search(r"\* Axioms:\s*(.*?)\n\s*\*", out + "\n *", flags=re.S)
-            ax = (m.group(1).strip() if m else "")
-            res["coqchk_axioms"] = ax
-            if ax and "<none>" not in ax:
+            res["coqchk_axioms"] = ck["axioms"]
+            if ck["axioms"] and "<none>" not in ck["axioms"]:
                 res["ok"] = False
     return res
 
@@ -301,7 +332,7 @@ class Ctx:
             cov["obligations"] = prop_res.get("obligations", 0)
             cov["discharged"] = prop_res.get("discharged", 0)
             cov["checker_cmd"] = f"cd /verif/coq && make -k -j16 && coqc -Q . LNN Properties/{self.pid}.v" + \
-                (f" && coqchk -silent -o -Q . LNN LNN.Properties.{self.pid}" if self.tier == "thorough" else "")
+                (" && coqchk -silent -o -Q . LNN <all modules of _CoqProject> (one run serves all properties, cached per build)" if self.tier == "thorough" else "")
             cov["trusted_base"] = TRUSTED_BASE
             cov["property_theorems"] = prop_res.get("theorems", [])
             cov["print_assumptions"] = {"closed": prop_res.get("closed", 0), "expected": prop_res.get("n_print", 0),
